@@ -29,7 +29,7 @@ from ..canon import fingerprint
 from ..explorer import Step
 
 PROPERTY = "C11"
-BOUNDS = {"quick": "depth 4 (local-settings alphabet and peer-settings alphabet explored separately); two start states (initial SETTINGS already acknowledged / still outstanding), both roles",
+BOUNDS = {"quick": "depth 4 (local-settings alphabet and peer-settings alphabet explored separately), depth 6 for the repeated-values sub-alphabet; two start states (initial SETTINGS already acknowledged / still outstanding), both roles",
           "thorough": "depth 7 (or time budget, reported)"}
 sb = H.stateless_block
 
@@ -72,7 +72,7 @@ class Spec:
         self.side = side
         self.tier = tier
         self.name = "c11-%s-%s-%s" % (role, side, tier)
-        self.max_depth = 4 if tier == "quick" else 7
+        self.max_depth = (6 if side == "localrep" else 4) if tier == "quick" else (8 if side == "localrep" else 7)
         self.lmenu = dict(LOCAL_MENU)
         self.rmenu = dict(REMOTE_MENU)
         if self.client:
@@ -91,23 +91,41 @@ class Spec:
         st.remote = {HTS: 4096, EP: int(not self.client), IWS: 65535, MFS: 16384, 8: 0}
         st.dead = False
         st.multi = False                 # more than one SETTINGS frame has been outstanding at once
+        st.diverged = False              # an ACK has arrived in a situation where per-key and per-frame acknowledgement differ
+        st.existing = ()                 # streams that exist on the connection itself (probes normally open theirs on clones)
         if acked:
             st.h.rx([wire.settings([], ack=True)])
             st.sent = []
         return st
 
     def initial(self):
-        return [("initial-acked", self._fresh(True)), ("initial-outstanding", self._fresh(False))]
+        out = [("initial-acked", self._fresh(True)), ("initial-outstanding", self._fresh(False))]
+        if not self.client and self.side == "remote":
+            # existing streams whose send windows a received INITIAL_WINDOW_SIZE must adjust at once: an open one, one
+            # half-closed (remote) and a promised one (reserved) - nothing has been sent on any of them
+            st = self._fresh(True)
+            h = st.h
+            for o in (h.rx([wire.headers(1, sb(H.REQ_POST))], ("headers", 1, False, False)),
+                      h.rx([wire.headers(3, sb(H.REQ), es=True)], ("headers", 3, True, False)),
+                      h.api("send_headers", 1, H.ni(H.RESP)),
+                      h.api("push_stream", 1, 2, H.ni(H.REQ))):
+                assert o.kind == "ok", o.brief()
+            st.existing = (1, 2, 3)
+            out.append(("three-streams", st))
+        return out
 
     def fingerprint(self, st):
         return fingerprint(st.h.conn, sorted(st.cur.items()), [sorted(d.items()) for d in st.sent],
-                           sorted(st.remote.items()), st.dead, st.multi)
+                           sorted(st.remote.items()), st.dead, st.multi, st.diverged)
 
     def actions(self, st):
         if st.dead:
             return []
         if self.side == "local":
             return ["us:" + k for k in sorted(self.lmenu)] + ["rxack"] + ["rxs:mcs1"]
+        if self.side == "localrep":
+            # few settings, repeated values, deeper: several frames for the SAME setting in flight at once
+            return ["us:iws100", "us:iws5000", "us:ep0" if self.client else "us:mcs1", "us:ep1" if self.client else "us:mcs2", "rxack"]
         return ["rxs:" + k for k in sorted(self.rmenu)] + ["us:iws100", "rxack"]
 
     # ------------------------------------------------------------------
@@ -116,8 +134,15 @@ class Spec:
         h = st.h
         outstanding = len(st.sent)
 
+        # The known per-key acknowledgement defect can only show when this very step is an ACK that arrives while a LATER
+        # outstanding frame carries a key the oldest outstanding frame does not carry (the initial frame carries none as
+        # far as pending values go): only then do "oldest pending value of every key" and "the oldest frame's values" differ.
+        keys0 = set() if (st.sent and len(st.sent[0]) == 7) else set(st.sent[0] if st.sent else ())
+        divergent = st.diverged or (lab == "rxack" and any(k not in keys0 for f in st.sent[1:] for k in f))
+        st.diverged = divergent
+
         def bad(kind, msg, **sig):
-            s = {"kind": kind, "multi_outstanding": outstanding >= 2}
+            s = {"kind": kind, "multi_outstanding": outstanding >= 2, "perkey_divergent": divergent}
             s.update(sig)
             viols.append({"kind": kind, "sig": s, "msg": msg})
 
@@ -231,6 +256,17 @@ class Spec:
         blob = pickle.dumps(st.h.conn)
         cur, rem = st.cur, st.remote
         client = self.client
+        if st.existing:
+            for sid in st.existing:
+                try:
+                    w = st.h.conn.local_flow_control_window(sid)
+                except Exception as e:  # noqa: BLE001
+                    bad("remote-iws-probe", "after %s: local_flow_control_window(%d) raised %r" % (lab, sid, e), probe="existing-stream")
+                    continue
+                if w != min(65535, rem[IWS]):
+                    bad("remote-iws-probe", "after %s: send window of existing stream %d (nothing sent on it) is %d, peer's INITIAL_WINDOW_SIZE is %d" % (
+                        lab, sid, w, rem[IWS]), probe="existing-stream")
+            return
 
         def fresh():
             return pickle.loads(blob)
@@ -377,5 +413,5 @@ def make_spec(key):
 
 def run(ctx):
     for role in ("server", "client"):
-        for side in ("local", "remote"):
+        for side in ("local", "localrep", "remote"):
             ctx.explore(("c11", role, side, ctx.tier), time_budget=None if ctx.tier == "quick" else 400)
